@@ -227,7 +227,16 @@ WRAP_ROWS = [r for r in WRAP_ROWS if r not in ('CBZ_T1', 'PUSH_T2')]
 EDGE = [0, 1, 2, 3, 4, 8, 0x10, 0x3C, M32, M32 - 1, M32 - 3, M32 - 7, 0xFFFFFFF0, 0xFFFFFFC0, 0x80000000, 0x7FFFFFFC]
 
 
+RETURN_ROWS = ('RFE_A1', 'RFE_T1', 'RFE_T2', 'LDM_eret_A1', 'SRS_A1', 'SRS_T1', 'SRS_T2', 'LDM_user_A1', 'STM_user_A1')
+
+
 def wrap_tweak(rng, row, w, case):
+    if row.name in RETURN_ROWS and rng.random() < 0.8:
+        # banking across an exception return: plausible stacked PSR / SPSR, base in mapped memory (see C12's generator)
+        from vf.props import c12, c03
+        c03.tweak(rng, row, w, case)
+        c12.tweak(rng, row, w, case)
+        return
     f = row.extract(w)
     st_ = case['state']
     mode = gen.MODE_NAME[st_['cpsr'] & 31]
@@ -254,11 +263,14 @@ def classify(res, case):
 
 
 def nontrivial(res):
+    if res.row in RETURN_ROWS and res.status == 'ok' and res.cond_passed:
+        return True
     return bool(classify(res, None))
 
 
 PLAN = e1prop.Plan('C10', WRAP_ROWS, cfgs=('v6', 'v7', 'v5'), classify=classify, nontrivial=nontrivial, tweak_case=wrap_tweak,
-                   case_kw=lambda rng, row: {'mpu': False, 'mmu': False, 'e': 0, 'code_base': rng.choice((0, 0xFFFFFF00, 0xFFFF0000, 0x8000, 0x7FFFFF80))})
+                   case_kw=lambda rng, row: dict({'mpu': False, 'mmu': False, 'e': 0, 'code_base': rng.choice((0, 0xFFFFFF00, 0xFFFF0000, 0x8000, 0x7FFFFF80))},
+                                                **({'mode': rng.choice(('svc', 'irq', 'fiq', 'abt', 'und')), 'code_base': 0x8000} if row.name in RETURN_ROWS else {})))
 
 
 def run(ctx):
